@@ -71,17 +71,29 @@ where
             sim().probe(Probe::IterCloneMid);
             let mut c = cl(&it);
             let mut v = Vec::new();
-            let mut k = 0;
-            loop {
-                check_len(&c, rem.saturating_sub(k), "clone", &mut log.errs);
-                match c.next() {
-                    Some(x) => v.push(x),
-                    None => break,
+            // the clone is consumed through next(), fold() or for_each() in turn
+            match (plan.n_next + plan.extra) % 3 {
+                1 => {
+                    v = c.fold(v, |mut acc, x| {
+                        acc.push(x);
+                        acc
+                    });
                 }
-                k += 1;
-                if k > total + 8 {
-                    log.errs.push("cloned iterator yields more elements than the collection holds".into());
-                    break;
+                2 => c.for_each(|x| v.push(x)),
+                _ => {
+                    let mut k = 0;
+                    loop {
+                        check_len(&c, rem.saturating_sub(k), "clone", &mut log.errs);
+                        match c.next() {
+                            Some(x) => v.push(x),
+                            None => break,
+                        }
+                        k += 1;
+                        if k > total + 8 {
+                            log.errs.push("cloned iterator yields more elements than the collection holds".into());
+                            break;
+                        }
+                    }
                 }
             }
             log.cloned = Some(v);
